@@ -393,7 +393,7 @@ fn check(ctx: &Ctx, rng: &mut Rng, case_id: u64, root_base: &Path) {
                 ctx.eval(1);
                 ctx.count("missing_file_cases", 1);
                 let fname = disk.file_name().unwrap().to_string_lossy().to_string();
-                let replay = json!({"tree": tree_json(), "removed": disk.display().to_string(), "must_fail_naming": fname, "observed": out.brief()});
+                let replay = json!({"tree": tree_json(), "caller_dirs": t.caller_dirs.iter().map(|p| p.display().to_string()).collect::<Vec<_>>(), "removed": disk.display().to_string(), "must_fail_naming": fname, "observed": out.brief()});
                 match &out {
                     Outcome::Ok(_) => ctx.violation("include/missing-file/accepted", format!("build succeeded although {} does not exist", fname), replay),
                     Outcome::Panic(p) => ctx.violation("include/missing-file/panic", fw::clip(p, 140), replay),
@@ -498,6 +498,9 @@ pub fn replay(ctx: &Ctx, case: &Value) -> i32 {
         }
     }
     let dirs: Vec<PathBuf> = case["caller_dirs"].as_array().map(|a| a.iter().filter_map(|x| x.as_str()).map(PathBuf::from).collect()).unwrap_or_default();
+    for d in &dirs {
+        let _ = std::fs::create_dir_all(d);
+    }
     ctx.eval(1);
     ctx.distinct(1);
     ctx.distinct(2);
